@@ -498,7 +498,9 @@ def build_reference(schema, tag):
 
     for c in schema.classes:
         m = fdp.message_type.add(name=c.name)
-        for g in range(c.ngroups):
+        used = sorted({f.group for f in c.fields if f.group is not None})
+        gidx = {g: k for k, g in enumerate(used)}
+        for g in used:
             m.oneof_decl.add(name=f"g{g}")
         nsyn = 0
         for f in c.fields:
@@ -521,10 +523,10 @@ def build_reference(schema, tag):
                 elif f.card == "optional":
                     fd.proto3_optional = True
                     m.oneof_decl.add(name=f"_{f.name}")
-                    fd.oneof_index = c.ngroups + nsyn
+                    fd.oneof_index = len(used) + nsyn
                     nsyn += 1
             if f.group is not None:
-                fd.oneof_index = f.group
+                fd.oneof_index = gidx[f.group]
     pool.Add(fdp)
     return [message_factory.GetMessageClass(pool.FindMessageTypeByName(f"{pkg}.{c.name}")) for c in schema.classes]
 
@@ -545,34 +547,49 @@ def fail_input(schema, si, ci, fault, bs):
             "fault": fault, "bytes": bs.hex()}
 
 
-def evaluate(ctx, schema, si, ci, fault, bs, expectation=None, record=True):
-    """returns (expected cv literal for the correspondence | None, summary) and records oracle failures"""
+def evaluate(schema, ci, fault, bs, expectation=None, Ref=None):
+    """one input through the three entry points and the oracle.  Pure: returns a dict
+       result: None | 'raise' | (snapshot literal, bytes(result) | None);  summary;  problems [(cls, what)];  count key;
+       nontrivial;  ref: True/False/None (reference accepted)"""
+    import betterproto as bp
     c = schema.classes[ci]
     outs = run_impl(schema, c, bs)
     kinds = [k for k, _ in outs]
-    inp = fail_input(schema, si, ci, fault, bs)
+    res = {"result": None, "summary": "", "problems": [], "count": None, "nontrivial": False, "ref": None}
+    if Ref is not None:
+        res["ref"] = ref_accepts(Ref, bs)
     if "recursion" in kinds:
-        ctx.count("recursion-limit (not modelled, skipped)")
-        return None, "recursion"
+        res["summary"] = "recursion"
+        res["count"] = "recursion-limit (not modelled, skipped)"
+        return res
     if len(set(kinds)) != 1:
-        ctx.fail("oracle", f"parse / FromString / load disagree on raising: {kinds}", cls="entry-points-disagree", input=inp)
-        return None, "disagree"
+        res["problems"].append(("entry-points-disagree", f"parse / FromString / load disagree on raising: {kinds}"))
+        res["summary"] = "disagree"
+        return res
     sclass, sinfo = spec_class(bs)
-    ctx.count(f"{fault}|spec-{sclass}|impl-{'ok' if kinds[0] == 'ok' else 'raise'}")
+    res["count"] = f"{fault.split(':')[0]}|spec-{sclass}|impl-{'ok' if kinds[0] == 'ok' else 'raise'}"
     if kinds[0] == "raise":
-        if expectation in ("unknown",):
-            ctx.fail("oracle", f"well-formed input rejected: {type(outs[0][1]).__name__}: {outs[0][1]}", cls="rejects-wellformed", input=inp)
-        return "raise", "raise"
+        if expectation == "unknown":
+            res["problems"].append(("rejects-wellformed", f"well-formed input rejected: {type(outs[0][1]).__name__}: {outs[0][1]}"))
+        res["result"] = res["summary"] = "raise"
+        return res
     # ---- returned
     m = outs[0][1]
+    problems = res["problems"]
     try:
         snaps = [snapshot(schema, x) for _, x in outs]
     except msggen.Unmodellable as e:
-        ctx.fail("oracle", f"result cannot be snapshotted: {e}", cls="ill-typed-result", input=inp)
-        return None, "unmodellable"
+        problems.append(("ill-typed-result", f"result cannot be snapshotted: {e}"))
+        tp = []
+        try:
+            obj_typed(schema, ci, m, c.name, tp)
+        except Exception:  # noqa
+            pass
+        problems.extend(("ill-typed-result", t) for t in tp[:3])
+        res["summary"] = "unmodellable"
+        return res
     if len(set(snaps)) != 1:
-        ctx.fail("oracle", "parse / FromString / load return different messages", cls="entry-points-disagree", input=inp)
-    problems = []
+        problems.append(("entry-points-disagree", "parse / FromString / load return different messages"))
     if sclass == "invalid":
         problems.append(("accepts-malformed", f"input is not a sequence of complete records ({sinfo}) but parse() returned {m!r:.200}"))
     if expectation == "raise" and sclass != "invalid":
@@ -622,16 +639,46 @@ def evaluate(ctx, schema, si, ci, fault, bs, expectation=None, record=True):
             except Exception as e:  # noqa
                 problems.append(("foreign-record-not-isolated", f"input without its foreign records is rejected: {type(e).__name__}: {e}"))
         if expectation == "unknown":
-            import betterproto as bp
             vals = [object.__getattribute__(m, f.name) for f in c.fields]
             if unk != bs or any(v is not bp.PLACEHOLDER and v is not None for v in vals):
                 problems.append(("foreign-record-not-isolated",
                                  f"expected the whole input in _unknown_fields and no field set; got {m!r:.200} unknown={unk.hex()}"))
-    for cls_, what in problems:
-        ctx.fail("oracle", what, cls=cls_, input=inp)
-    if record and sclass == "valid" and sinfo:
-        ctx.seen_nontrivial((si, ci, bs))
-    return (snaps[0], again), "ok"
+        res["nontrivial"] = bool(sinfo)
+    res["result"] = (snaps[0], again)
+    res["summary"] = "ok"
+    return res
+
+
+_G = {}
+
+
+def _worker(span):
+    lo, hi = span
+    schemas, cases, refs = _G["schemas"], _G["cases"], _G["refs"]
+    out = []
+    for i in range(lo, hi):
+        si, ci, fault, bs, exp = cases[i]
+        try:
+            R = refs.get(si)
+            out.append(evaluate(schemas[si], ci, fault, bs, exp, R[ci] if R else None))
+        except Exception as e:  # noqa
+            out.append({"result": None, "summary": "harness", "count": None, "nontrivial": False, "ref": None,
+                        "problems": [("harness", f"harness could not evaluate the input: {type(e).__name__}: {e}")]})
+    return out
+
+
+def evaluate_all(ctx, schemas, cases, refs):
+    import multiprocessing as mp
+    _G.update(schemas=schemas, cases=cases, refs=refs)
+    n = len(cases)
+    step = max(50, n // (lib.JOBS * 6) + 1)
+    spans = [(lo, min(n, lo + step)) for lo in range(0, n, step)]
+    if n < 400 or os.environ.get("VERIF_C17_SERIAL"):
+        chunks = [_worker(sp) for sp in spans]
+    else:
+        with mp.get_context("fork").Pool(min(lib.JOBS, 12)) as pool:
+            chunks = pool.map(_worker, spans, chunksize=1)
+    return [r for ch in chunks for r in ch]
 
 
 # --------------------------------------------------------------------------------------
@@ -640,9 +687,9 @@ def run(ctx):
     th = ctx.thorough
     schemas = [msggen.matrix_schema()] + [msggen.random_schema(rng) for _ in range(5 if not th else 40)]
     prelude = "\n".join(f"Definition sc{i} : schema := {s.coq()}." for i, s in enumerate(schemas))
-    budget = 160 if not th else 600
-    n_msgs = (70, 22) if not th else (500, 120)
-    cap_corr = 5200 if not th else 40000
+    budget = 120 if not th else 600
+    n_msgs = (36, 9) if not th else (500, 120)
+    cap_corr = 2600 if not th else 30000
 
     cases = []          # (si, ci, fault, bytes, expectation)
     # ---- corpus first
@@ -675,7 +722,7 @@ def run(ctx):
             valid_inputs.append((si, ci, bs))
             for fault, vb in variants(s, ci, bs, rng, budget, th):
                 cases.append((si, ci, fault, vb, None))
-        for _ in range(120 if not th else 1500):
+        for _ in range(80 if not th else 1500):
             ci = rng.randrange(len(s.classes))
             cases.append((si, ci, "random-bytes", random_bytes(rng, s.classes[ci]), None))
     # ---- dedup
@@ -690,43 +737,42 @@ def run(ctx):
     cases = uniq
     ctx.count("inputs_total", len(cases))
 
-    # ---- implementation + oracle on every input
-    results = []
-    for (si, ci, fault, bs, exp) in cases:
+    # ---- implementation + oracle (+ reference decoder) on every input, in forked workers
+    refs = {}
+    for si, s in enumerate(schemas):
         try:
-            r, summary = evaluate(ctx, schemas[si], si, ci, fault, bs, exp)
+            refs[si] = build_reference(s, f"{ctx.seed}_{si}")
         except Exception as e:  # noqa
-            ctx.fail("oracle", f"harness could not evaluate the input: {type(e).__name__}: {e}", cls="harness", input=fail_input(schemas[si], si, ci, fault, bs))
-            r, summary = None, "harness"
-        results.append(r)
-        ctx.cov["evaluations"] += 1
-        if summary == "ok" and len(ctx.cov["samples"]) < 8 and fault not in ("valid",) and rng.random() < 0.02:
-            ctx.sample({"class": schemas[si].classes[ci].name, "fault": fault, "bytes": bs.hex()[:120], "result": "returned"})
-        if summary == "raise" and len(ctx.cov["samples"]) < 8 and rng.random() < 0.002:
-            ctx.sample({"class": schemas[si].classes[ci].name, "fault": fault, "bytes": bs.hex()[:120], "result": "raised"})
-
-    # ---- reference decoder: accept / reject per fault class (recorded, not required to agree)
+            refs[si] = None
+            ctx.notes.append(f"reference classes for schema {si} could not be built: {type(e).__name__}: {str(e)[:200]}")
+    import time as _t
+    t_impl = _t.time()
+    evs = evaluate_all(ctx, schemas, cases, refs)
+    t_impl = _t.time() - t_impl
+    results = []
     agreement = {}
-    try:
-        refs = {}
-        for i, (si, ci, fault, bs, exp) in enumerate(cases):
-            if results[i] is None:
-                continue
-            if si not in refs:
-                try:
-                    refs[si] = build_reference(schemas[si], f"{ctx.seed}_{si}")
-                except Exception as e:  # noqa
-                    refs[si] = None
-                    ctx.notes.append(f"reference classes for schema {si} could not be built: {type(e).__name__}: {str(e)[:200]}")
-            if refs[si] is None:
-                continue
-            ra = ref_accepts(refs[si][ci], bs)
-            ia = results[i] != "raise"
-            fclass = fault.split(":")[0]
-            d = agreement.setdefault(fclass, {"both_accept": 0, "both_reject": 0, "only_betterproto_accepts": 0, "only_reference_accepts": 0})
+    for (si, ci, fault, bs, exp), ev in zip(cases, evs):
+        results.append(ev["result"])
+        ctx.cov["evaluations"] += 1
+        if ev["count"]:
+            ctx.count(ev["count"])
+        for cls_, what in ev["problems"]:
+            ctx.fail("oracle", what, cls=cls_, input=fail_input(schemas[si], si, ci, fault, bs))
+        if ev["nontrivial"]:
+            ctx.seen_nontrivial((si, ci, bs))
+        summary = ev["summary"]
+        if summary in ("ok", "raise") and len(ctx.cov["samples"]) < 10 and fault != "valid" and rng.random() < (0.02 if summary == "ok" else 0.002):
+            ctx.sample({"class": schemas[si].classes[ci].name, "fault": fault, "bytes": bs.hex()[:120],
+                        "result": "returned" if summary == "ok" else "raised"})
+        # reference decoder: accept / reject per fault class (recorded, not required to agree)
+        if ev["ref"] is not None and ev["result"] is not None:
+            ra, ia = ev["ref"], ev["result"] != "raise"
+            d = agreement.setdefault(fault.split(":")[0], {"both_accept": 0, "both_reject": 0, "only_betterproto_accepts": 0,
+                                                           "only_reference_accepts": 0, "examples_of_disagreement": []})
             d["both_accept" if ra and ia else "both_reject" if not ra and not ia else "only_betterproto_accepts" if ia else "only_reference_accepts"] += 1
-    except Exception as e:  # noqa
-        ctx.notes.append(f"reference comparison aborted: {type(e).__name__}: {str(e)[:300]}")
+            if ra != ia and len(d["examples_of_disagreement"]) < 3:
+                d["examples_of_disagreement"].append({"class": schemas[si].describe()[schemas[si].classes[ci].name], "bytes": bs.hex()[:160],
+                                                      "betterproto": "accepts" if ia else "rejects"})
     ctx.cov["reference_decoder_agreement"] = agreement
 
     # ---- correspondence: model vs implementation
@@ -765,7 +811,9 @@ def run(ctx):
             expected = f"(CL [cv_of_obj {snap}; CL [cbool true; cbool true; {cb(again) if again is not None else '(CE EOther)'}]])"
         pairs.append((model, expected))
     ctx.count("correspondence_cases", len(pairs))
-    bad = lib.coq_compare(ctx, "c17", IMPORTS, pairs, chunk=100, prelude=prelude + "\n" + SIDE_PRELUDE(schemas))
+    t_coq = _t.time()
+    bad = lib.coq_compare(ctx, "c17", IMPORTS, pairs, chunk=100, prelude=prelude)
+    ctx.notes.append(f"timing: implementation+oracle {t_impl:.0f}s for {len(cases)} inputs, model evaluation {_t.time() - t_coq:.0f}s for {len(pairs)} cases")
     for j in bad[:20]:
         i = sel[j]
         si, ci, fault, bs, exp = cases[i]
@@ -781,9 +829,6 @@ def run(ctx):
     for s in schemas:
         s.dispose()
 
-
-def SIDE_PRELUDE(schemas):
-    return ""
 
 
 def finish(ctx):
@@ -810,8 +855,9 @@ def replay(ctx, obj):
     print("independent reader:", spec_class(bs)[0], spec_class(bs)[1] if spec_class(bs)[0] == "invalid" else "")
     for how, (k, v) in zip(("parse", "FromString", "load"), run_impl(s, s.classes[ci], bs)):
         print(f"  {how}: {k}: {v!r:.400}")
-    evaluate(ctx, s, 0, ci, inp.get("fault", "replay"), bs, None, record=False)
-    for f in ctx.failures:
-        print("FAILS:", f["cls"], "-", f["what"][:400])
+    ev = evaluate(s, ci, inp.get("fault", "replay"), bs, None)
+    for cls_, what in ev["problems"]:
+        print("FAILS:", cls_, "-", what[:400])
+        ctx.failures.append(cls_)
     print("recorded failure:", obj.get("what"))
     return 1 if ctx.failures else 0
